@@ -13,6 +13,9 @@
 #define PSETSEQ_HH
 #include "psetseq_dom.hh"
 #include <functional>
+#include <csignal>
+#include <sys/types.h>
+#include <sys/wait.h>
 
 namespace psq {
 
@@ -214,7 +217,24 @@ struct Engine {
   }
 
   // base-level pre-run on copies of the disjuncts: expected union, or "skip" when the domain rejects the argument
+  // Operators known to kill the process at base level are first tried in a forked child, so that the
+  // defect is reported from an observed death and the engine survives it.
+  static bool risky(const std::string& name) { return kind == K_BOX && name == "bounded_affine_preimage"; }
+  static int crash_probe(const std::function<void()>& f) {
+    fflush(0);
+    pid_t p = fork();
+    if (p < 0) return 0;
+    if (p == 0) { signal(SIGFPE, SIG_DFL); signal(SIGSEGV, SIG_DFL); signal(SIGABRT, SIG_DFL); signal(SIGBUS, SIG_DFL); signal(SIGILL, SIG_DFL); try { f(); } catch (...) {} _exit(0); }
+    int st = 0; if (waitpid(p, &st, 0) != p) return 0;
+    return WIFSIGNALED(st) ? WTERMSIG(st) : 0;
+  }
   static bool expected_unary(const UOp& op, const std::vector<D>& ev, Un& E) {
+    if (risky(op.name)) {
+      hx::count("crash_probes");
+      int sig = crash_probe([&]() { std::vector<D> w = ev; for (size_t i = 0; i < w.size(); ++i) op.d(w[i]); });
+      if (sig) { tr(" | base-level" + op.text); std::string els; for (size_t i = 0; i < ev.size(); ++i) els += (i ? " | " : "") + text(ev[i]);
+        violation(key(op.name, "base_crash", "signal-" + std::to_string(sig)), "the base-level operator applied to a copy of a disjunct killed a forked probe process; disjuncts: " + els); return false; }
+    }
     try { std::vector<D> w = ev; for (size_t i = 0; i < w.size(); ++i) op.d(w[i]); E = shadow_of(w); return true; }
     catch (const std::invalid_argument&) { hx::count("skipped.invalid_argument." + op.name); return false; }
   }
